@@ -1,18 +1,31 @@
 """Shared stage: ZkProof.tla (the representation-proof engine in concrete toy groups) checked by TLC and replayed exactly on zkproof/."""
 import os, vplib
 
+def _constants():
+    """the generators of the toy group as the REAL BuildGroup(23) derives them: constants of the specification"""
+    import subprocess, json
+    exe = vplib.build_harness("zk", False)
+    out = subprocess.run([exe, "group"], stdout=subprocess.PIPE, stderr=subprocess.STDOUT, text=True, timeout=60)
+    try:
+        gh = json.loads(out.stdout.strip().splitlines()[-1])
+        return {"Gg": str(int(gh["g"])), "Hh": str(int(gh["h"]))}
+    except Exception:
+        raise vplib.Machinery("zk group: %s" % out.stdout[-500:])
+
 def run(chk, variant):
     cfg = "ZkProof.%s.cfg" % variant
-    g = vplib.tlc_mc("ZkProofGen", cfg, workers=1, timeout=900)
+    consts = _constants()
+    chk.extra["zk_toy_generators"] = consts
+    g = vplib.tlc_mc("ZkProofGen", cfg, workers=1, timeout=900, constants=consts)
     cases = sorted(set(g.tagged_raw_json("Z")))
     chk.add_tlc(g, "ZkProofGen", cfg, "Complete, Absorbing, AbsorbingL; %d cases of the %s variant" % (len(cases), variant))
     if len(cases) < 10000:
         raise vplib.Machinery("ZkProof generator produced only %d cases" % len(cases))
     if variant == "group":
-        r = vplib.tlc_mc("ZkProof", "ZkProof.sound.cfg", timeout=900)
+        r = vplib.tlc_mc("ZkProof", "ZkProof.sound.cfg", timeout=900, constants=consts)
         chk.add_tlc(r, "ZkProof", "ZkProof.sound.cfg", "Sound2 (special soundness in the prime-order toy group)")
         for c, inv in (("ZkProof.vacuity1.cfg", "NeverTrue"), ("ZkProof.vacuity2.cfg", "NeverZero")):
-            r = vplib.tlc("ZkProof", c, timeout=300, allow_fail=True)
+            r = vplib.tlc("ZkProof", c, timeout=300, allow_fail=True, constants=consts)
             if inv not in r.invariant_violated:
                 raise vplib.Machinery("ZkProof vacuity probe %s not violated" % inv)
     p = os.path.join(vplib.sub("zk-" + variant), "cases.ndjson")
